@@ -4,6 +4,7 @@ use std::io::{self, BufRead, Write};
 use std::panic;
 
 mod alloc;
+mod ops_amount;
 mod ops_basic;
 mod ops_codec;
 
@@ -26,6 +27,9 @@ fn run_line(line: &str) -> String {
     let mut it = line.split(' ');
     let op = it.next().unwrap_or("");
     let args: Vec<&str> = it.collect();
+    if let Some(r) = ops_amount::run(op, &args) {
+        return r;
+    }
     if let Some(r) = ops_basic::run(op, &args) {
         return r;
     }
